@@ -137,6 +137,10 @@ func VerifC07History() {
 			verifapi.Assert(verifapi.Same(snap, verifapi.Snapshot(after)), "c07.refused-or-failed-leaves-balance")
 			if !good || !meets {
 				verifapi.Assert(w.calls == calls, "c07.no-settlement-attempt-when-refused")
+			} else {
+				// a correctly signed request that meets the minimum is executed: the only way it can fail is
+				// the settlement itself
+				verifapi.Assert(w.calls == calls+1, "c07.valid-request-reaches-settlement")
 			}
 		}
 	}
